@@ -116,7 +116,8 @@ def concretize(rng, idx, beh, prop, force_mode=None):
         elif kind == "cache":
             hit = c == "hit"
             need_q0 = need_q0 or hit
-            nodes.append({"kind": kind, "impl": "cache", "hit": hit, "key": st.get("key", "own") if st else "own"})
+            nodes.append({"kind": kind, "impl": "cache", "hit": hit, "key": st.get("key", "own") if st else "own",
+                          "lazy": hit and rng.random() < 0.12})       # stale entry of a lazy cache (+ background refresh)
         elif kind == "ecs":
             x = set(st["x"]) if st else set()
             if x == {"cE", "pE"} or (seen_ecs and x):
@@ -169,6 +170,10 @@ def concretize(rng, idx, beh, prop, force_mode=None):
                             return None
                     else:
                         sc["opts"] = sorted(o)
+                    # position of the OPT inside the additional section: first / middle / last
+                    sc["pre"], sc["post"] = rng.choice([(0, 0), (0, 0), (0, 1), (1, 0), (1, 1), (0, 2), (2, 0), (2, 2)])
+                    if rng.random() < 0.4:
+                        sc["fill"] = "a"
             nodes.append({"kind": kind, "impl": impl, "script": sc})
         else:
             return None
@@ -189,9 +194,31 @@ def concretize(rng, idx, beh, prop, force_mode=None):
     case = {"idx": idx, "mode": mode, "tr": tr, "mal": cq["mal"], "opt": opt, "nodes": nodes,
             "id": rng.choice([0, 0xFFFF, rng.randint(1, 0xFFFE), rng.randint(1, 0xFFFE)]),
             "name": mk_name(rng, idx, rng.choice(styles)), "target": "t%d.Redirect-Target.test." % idx,
-            "qtype": qtype, "qclass": qclass, "flags": flags, "settle": 0,
+            "qtype": qtype, "qclass": qclass, "flags": flags,
+            "settle": 250 if any(n.get("lazy") for n in nodes) else 0,
             "expected": beh["reply"], "beh": beh}
     return case
+
+
+def pair_case(rng, idx):
+    """two interleaved clients (different IDs, same question) on the same stale entry of a lazy cache: the driver
+    holds both behind the cache before either continues. Each client's trace is judged on its own."""
+    beh = {"cq": {"mal": "ok", "opt": {"k": "none"}}, "tr": "tcp", "chain": ["cache", "ttl"],
+           "steps": [{"pos": 1, "kind": "cache", "c": "hit", "key": "own"}, {"pos": 2, "kind": "ttl", "c": "pass"}],
+           "reply": {"k": "reply", "rcode": 0, "nopt": 0, "tc": False, "opts": [], "do": False}}
+    if rng.random() < 0.5:
+        beh["cq"]["opt"] = {"k": "opt", "size": rng.choice([512, 1232, 4096]), "do": rng.random() < 0.5, "ver": 0, "opts": []}
+        beh["reply"]["nopt"] = 1
+        beh["reply"]["do"] = beh["cq"]["opt"]["do"]
+        beh["tr"] = rng.choice(["udp", "tcp"])
+    c = concretize(rng, idx, beh, "C03", force_mode="direct")
+    c["nodes"][0]["lazy"] = True
+    c["pair"] = True
+    c["settle"] = 300
+    c["qtype"], c["qclass"] = rng.choice([1, 28, 16]), 1
+    c["flags"] &= 0x0130
+    c["expected"] = None
+    return c
 
 
 def composite_case(rng, idx, prop):
@@ -200,7 +227,8 @@ def composite_case(rng, idx, prop):
         sc = {"c": c}
         if c == "ans":
             sc.update({"rcode": rng.choice([0, 0, 0, 3, 2]), "size": rng.choice([0, 200, 700, 2000]),
-                       "opts": sorted(rng.sample(["uE", "uC", "uP"], rng.randint(0, 3)))})
+                       "opts": sorted(rng.sample(["uE", "uC", "uP"], rng.randint(0, 3))),
+                       "pre": rng.randint(0, 2), "post": rng.randint(0, 2)})
         return {"kind": "up", "impl": impl, "script": sc}
 
     def outcome():
@@ -338,6 +366,10 @@ def run_cases(ctx, prop, binary, cases, label):
         c, r, ti = owner[idx]
         sig, what = attribute(c, traces[idx], info.get("line_in_trace") or 0, prop)
         sig = classify_known(c, sig)
+        if c.get("pair"):
+            sig = "interleaved-clients-on-stale-cache-entry:" + sig
+            what = ("two clients (IDs id, id^0x1111) were both held behind the cache on the same stale lazy-cache entry; "
+                    "this client's response slot / reply no longer carries its own ID or question: ") + what
         ctx.violation(sig, what + " [chain %s, mode %s]" % (",".join(impls(c)), c["mode"]),
                       {"case": strip(c), "trace": traces[idx], "line_in_trace": info.get("line_in_trace")})
     # leg B: the generator's expected reply vs the observed one (only meaningful if the real plugins took
